@@ -1,14 +1,85 @@
-//! Bridge to the schedule explorer (separate binary built in its own workspace
-//! with lazy_static patched by the scheduler shim).
+//! Bridge to the schedule explorer (separate binary `pmc-sched`, built in its own
+//! workspace with lazy_static patched by the scheduler shim).
 
 use crate::engine::*;
 use serde_json::{json, Value};
+use std::process::Command;
 
-pub fn run_sched(_tier: Tier, st: &mut Stats) -> Value {
-    st.note("schedule explorer not built yet".into());
-    json!({"status": "not built"})
+fn bin() -> Option<std::path::PathBuf> {
+    std::env::var_os("PMC_SCHED_BIN").map(std::path::PathBuf::from).filter(|p| p.exists())
 }
 
-pub fn replay_sched(_case: &Case) -> Vec<Violation> {
-    vec![]
+pub fn run_sched(tier: Tier, st: &mut Stats) -> Value {
+    let b = match bin() {
+        Some(b) => b,
+        None => {
+            st.caps_hit.push("MACHINERY: schedule explorer binary not found (run through ./check C16)".into());
+            return json!({"status": "not built"});
+        }
+    };
+    let out = match Command::new(&b).arg(tier.name()).output() {
+        Ok(o) => o,
+        Err(e) => {
+            st.caps_hit.push(format!("MACHINERY: cannot run schedule explorer: {}", e));
+            return json!({"status": "failed to start"});
+        }
+    };
+    let text = String::from_utf8_lossy(&out.stdout);
+    let v: Value = match serde_json::from_str(text.trim()) {
+        Ok(v) => v,
+        Err(e) => {
+            st.caps_hit.push(format!("MACHINERY: schedule explorer produced no report ({}; exit {:?})", e, out.status.code()));
+            return json!({"status": "no report"});
+        }
+    };
+    let schedules = v["schedules"].as_u64().unwrap_or(0);
+    st.states += schedules;
+    st.transitions += v["choice_points"].as_u64().unwrap_or(0);
+    st.evaluations += schedules;
+    st.traces += schedules;
+    st.add("schedules_explored", schedules);
+    for e in v["errors"].as_array().cloned().unwrap_or_default() {
+        st.caps_hit.push(format!("MACHINERY: schedule explorer: {}", e.as_str().unwrap_or("?")));
+    }
+    for sc in v["scenarios"].as_array().cloned().unwrap_or_default() {
+        if sc["capped"].as_bool() == Some(true) {
+            st.caps_hit.push(format!("schedule scenario {} hit the execution cap after {} schedules", sc["scenario"], sc["schedules"]));
+        }
+        if sc["distinct_outcomes"].as_u64().unwrap_or(0) >= 2 {
+            st.nontrivial += 1;
+        }
+    }
+    for viol in v["violations"].as_array().cloned().unwrap_or_default() {
+        let problems = viol["problems"].as_array().map(|a| a.iter().filter_map(|x| x.as_str()).collect::<Vec<_>>().join("; ")).unwrap_or_default();
+        let vv = viol.clone();
+        st.violation(
+            "schedule",
+            move || Case::new("schedule").x(json!({"scenario": vv["scenario"], "choices": vv["choices"], "schedule": vv["schedule"]})),
+            "every thread gets the single-threaded results, each initialiser runs once, no deadlock".into(),
+            problems,
+        );
+    }
+    if let Some(s) = v["scenarios"].as_array().and_then(|a| a.first()) {
+        st.sample(json!({"schedule_scenario": s}));
+    }
+    v
+}
+
+pub fn replay_sched(case: &Case) -> Vec<Violation> {
+    let mut st = Stats::default();
+    let b = match bin() {
+        Some(b) => b,
+        None => return vec![],
+    };
+    let name = case.extra["scenario"].as_str().unwrap_or("").to_string();
+    let ch: Vec<String> = case.extra["choices"].as_array().map(|a| a.iter().filter_map(|x| x.as_u64()).map(|x| x.to_string()).collect()).unwrap_or_default();
+    if let Ok(out) = Command::new(&b).arg("replay").arg(&name).arg(ch.join(",")).output() {
+        if let Ok(v) = serde_json::from_str::<Value>(String::from_utf8_lossy(&out.stdout).trim()) {
+            for viol in v["violations"].as_array().cloned().unwrap_or_default() {
+                let problems = viol["problems"].as_array().map(|a| a.iter().filter_map(|x| x.as_str()).collect::<Vec<_>>().join("; ")).unwrap_or_default();
+                st.violation("schedule", || case.clone(), "every thread gets the single-threaded results, each initialiser runs once, no deadlock".into(), problems);
+            }
+        }
+    }
+    st.violations
 }
